@@ -10,7 +10,7 @@ import random
 from props import _time as T
 from props.C05 import check, design
 
-MINE = {'bndl', 'refused', 'ubndl', 'recv', 'score', 'marker', 'raw', 'missing-bndl', 'missing-refused'}
+MINE = {'bndl', 'refused', 'ubndl', 'ubndl-in-routine', 'recv', 'score', 'marker', 'raw', 'missing-bndl', 'missing-refused'}
 
 
 def sig(mode, tr, at, why):
@@ -69,7 +69,9 @@ def run(ctx):
                     nl, nkind = rnd.choice(T.LATS)
                     i['nk'], i['na'] = (2 if nkind == 1 else 1), nl
     nrt = [dict(p, main=[i for i in p['main'] if i['op'] != 'IN']) for p in progs]
-    tn, tr, v = check(ctx, nrt, progs, MINE, sig, 'C07')
+    tn, tr, v = check(ctx, nrt, progs, MINE, sig, 'C07', lenient=True)
+    # plain threads sending WHILE clock threads are inside routine bodies ("outside routines it carries the current time")
+    T.user_programs(ctx, 1500 if thorough else 150, 40_000, sig, MINE, lenient=True)
     ctx.cov['rule'] = ('%d seeded random routine programs with sends (latency in {0,1/8,1/4,1 s, None, -1/4 s}, plain messages, '
                        'nested bundles incl. ones that must be refused, sends from the main thread at start and from plain threads '
                        'while clocks run, incoming timed/immediate/plain datagrams) run under NrtMain (score list + raw) and '
